@@ -41,7 +41,7 @@ ASSUMPTIONS = ["ChaCha20-Poly1305 in ipv8_rust_tunnels is trusted (the oracle pe
 REACH = ["delivered_forward", "delivered_backward", "layer_checked_forward", "layer_checked_backward", "hops:1", "hops:2",
          "hops:3", "fault:flip", "fault:cid", "fault:splice", "fault:inject", "fault:flag", "fault:plain_data", "tampered_dropped",
          "speedtest_ok", "e2e_linked", "e2e_delivered", "e2e_reader_checked", "sent_from_ready_callback", "plain_reader_checked",
-         "e2e_ipv8_shaped_payload", "fault:reflect", "outside_answer_during_removal_grace_period", "nested_data_message_from_outside", "fault:rp_inject_at_link", "destination_by_host_name", "same_host_name_other_port"]
+         "e2e_ipv8_shaped_payload", "fault:reflect", "outside_answer_during_removal_grace_period", "nested_data_message_from_outside", "fault:rp_inject_at_link", "destination_by_host_name", "same_host_name_other_port", "outside_answer_while_exit_socket_is_closing"]
 
 SIZES = [2, 3, 10, 22, 23, 24, 64, 100, 279, 500, 1000, 1399, 1400]
 
@@ -61,6 +61,10 @@ def cases(tier: str, base_seed: int):  # noqa: ANN201
         n += 1
         yield {"seed": base_seed + n, "hops": hops, "knobs": {"lat_jit": 0.0}, "sizes": [64, 279, 80, 500, 64, 100], "faults": [],
                "second_circuit": False, "by_name": True}
+    for hops in (1, 2, 3):
+        n += 1
+        yield {"seed": base_seed + n, "hops": hops, "knobs": {"lat_jit": 0.0}, "sizes": [64, 279], "faults": [],
+               "second_circuit": False, "removal_during_lookup": True}
     # sweeps: every byte position of one cell of each kind on each link
     for hops in ((2,) if tier == "quick" else (1, 2, 3)):
         for cell in range(0, 10 if tier == "quick" else 40, 1):
@@ -109,7 +113,7 @@ def cases(tier: str, base_seed: int):  # noqa: ANN201
                                "mode": rng.choice(["alter", "extra"])})
         yield {"seed": seed, "hops": hops, "knobs": knobs, "sizes": sizes, "faults": faults,
                "second_circuit": mode == "tamper" or rng.random() < 0.3, "exit_removes": rng.random() < 0.25,
-               "by_name": rng.random() < 0.25}
+               "by_name": rng.random() < 0.25, "removal_during_lookup": rng.random() < 0.1}
 
 
 def readers(tw, pkt, marker: bytes, max_depth: int = 4) -> bool:  # noqa: ANN001
@@ -513,6 +517,7 @@ def execute(case: dict) -> dict:  # noqa: C901, PLR0915
     res: dict = {"circ": None, "circ2": None}
 
     sent_times: dict = {}
+    sent_bwd_optional: set = set()     # outside answers that may or may not be delivered (sent while the exit was closing)
 
     async def main() -> None:  # noqa: C901, PLR0912
         from ipv8.messaging.interfaces.udp.endpoint import DomainAddress, UDPv4Address
@@ -624,6 +629,36 @@ def execute(case: dict) -> dict:  # noqa: C901, PLR0915
                     world.probe("outside_answer_during_removal_grace_period")
                     await asyncio.sleep(1.0)
                 await asyncio.sleep(1.0)
+        if case.get("removal_during_lookup"):
+            # the exit gives the circuit up (no grace period configured) while it is still waiting for a name lookup made for that
+            # circuit; closing the exit socket has to wait for the lookup, and the outside host keeps answering meanwhile: nothing
+            # of what it sends may appear in the clear on a tunnel link
+            path_now = tw.path_of(o, circ)
+            x = path_now[-1] if len(path_now) == hops else None
+            srcs = sorted({src for _t, _d, src in w.received})
+            if x is not None and srcs and circ.state == "READY":
+                world.dns["slow.example"] = "9.9.9.9"
+                world.knobs["dns_latency"] = (2.5, 2.5)
+                slow = b"d" + b"SLOW%04dx" % 1 + rng.randbytes(4).hex().encode() + b"e"
+                sent_times[slow] = 1
+                o.call(o.ov.send_data, circ.hop.address, circ.circuit_id, DomainAddress("slow.example", 7000), ("0.0.0.0", 0), slow)
+                await asyncio.sleep(0.4)
+                x.ov.settings.remove_tunnel_delay = 0
+                outs = [t2 for t2 in net.all_transports if t2.owner == x.name and t2.port != x.port and not t2.closed]
+                for cid in list(x.ov.exit_sockets):
+                    x.call(x.ov.remove_exit_socket, cid, "c04: exit gives up during a lookup", destroy=0)
+                # answers that reach the exit's outside socket in the very loop iterations in which the entry is already gone and
+                # the socket not yet closed
+                for k, d in enumerate((0.0, 1e-9, 1e-7, 1e-6, 1e-5, 1e-4, 1e-3, 0.01, 0.1, 0.5)):
+                    lm = b"INWINDOW%02dx" % k + rng.randbytes(4).hex().encode()
+                    late_markers.append(lm)
+                    lp = b"d" + lm + rng.randbytes(30) + b"e"
+                    sent_bwd_optional.add(lp)
+                    for t2 in outs:
+                        if t2.family != 10 and ":" not in str(t2.addr[0]):
+                            net.inject(tuple(w.address), t2.addr, lp, delay=d, label="outside_late")
+                    world.probe("outside_answer_while_exit_socket_is_closing")
+                await asyncio.sleep(4.0)
         state["phase"] = "done"
         await asyncio.sleep(1.0)
         res["w"] = w
@@ -682,6 +717,8 @@ def execute(case: dict) -> dict:  # noqa: C901, PLR0915
             if name == "n1" and res.get("circ2") is not None:
                 continue
             c.violate("right_originator", "reply_delivered_at_other_node", f"{name} got raw data of circuit {cid}")
+            continue
+        if data in sent_bwd_optional:
             continue
         if data not in sent_bwd:
             c.violate("intact_or_dropped", "altered_data_reached_originator",
